@@ -195,6 +195,19 @@ class PoolEngine(HistEngine):
            "distinct by hash of the operation list; ")
     props = {}
 
+    def extra_obligations(self, pid, scratch, known):
+        """C06, interleaving half: no self-deadlock / lock-order cycle / blocking while holding a lock,
+        decided by Coq (vm_compute instance theorems) on the lock table the translator regenerates
+        from the working tree (engine `locks`)."""
+        if pid != "C06":
+            return True, "", None
+        try:
+            import eng_locks
+            ok, fail, ev = eng_locks.interleaving_check(os.path.join(scratch, "locks"), known)
+        except Exception as ex:
+            return False, "lock-table analysis failed: %r" % ex, {"error": repr(ex)}
+        return ok, "; ".join(eng_locks.row_text(r) if isinstance(r, dict) else str(r) for r in fail[:5]) or ev.get("error", ""), ev
+
     def extra_overlay(self, scratch):
         """line-preserving copies of gcp_balancer.go / gcp_picker.go with time.Now() -> verifNow()"""
         repl = {}
@@ -381,6 +394,13 @@ def run_property(pid, tier, seed):
             proof_ok = False
             plog = "audit: " + "; ".join(bad[:5])
         okd, dlog = eng.build_driver()
+        # obligations regenerated from the source on every run (translators)
+        extra_ev = None
+        if hasattr(eng, "extra_obligations"):
+            xok, xlog, extra_ev = eng.extra_obligations(pid, scratch, known)
+            if not xok:
+                proof_ok = False
+                plog = "regenerated obligation fails: " + xlog
         # 2. implementation runs
         env = dict(P[tier] if tier in P else P["quick"])
         env["VERIF_SEED"] = str(seed)
@@ -521,6 +541,8 @@ def run_property(pid, tier, seed):
             "exhaustive": False,
             "notes": notes,
         }
+        if extra_ev is not None:
+            cov["regenerated_obligations"] = extra_ev
         for k in known_printed.values():
             print("KNOWN-FINDING: property=%s %s" % (pid, k["what"]))
         for kind, path in violations:
